@@ -117,8 +117,8 @@ func (cce *staleIfErrorPolicy) CanStaleOnError(
 			continue
 		}
 		age := freshness.Age.Value + cce.clock.Since(freshness.Age.Timestamp)
-		// If stale-if-error is set, allow extra staleness
-		if age <= freshness.UsefulLife+dur {
+		// If stale-if-error is set, allow extra staleness (strictly below the window, RFC 5861 §4)
+		if age < freshness.UsefulLife+dur {
 			return true
 		}
 	}
